@@ -349,13 +349,41 @@ func parseReader(r io.Reader) (*html.Node, error) {
 		pageEncoding = xunicode.UTF8
 	}
 
-	// Parse HTML using the page encoding. The text is converted from NFD to
-	// NFC and soft hyphens are removed, like dom.Parse does.
-	softHyphenSet := runes.Predicate(func(r rune) bool { return r == '\u00AD' })
-	normalizer := transform.Chain(norm.NFD, runes.Remove(softHyphenSet), norm.NFC)
-
+	// Parse HTML using the page encoding
 	var reader io.Reader = bytes.NewReader(content)
 	reader = transform.NewReader(reader, pageEncoding.NewDecoder())
-	reader = transform.NewReader(reader, normalizer)
-	return html.Parse(reader)
+	doc, err := html.Parse(reader)
+	if err != nil {
+		return nil, err
+	}
+
+	// The text is converted from NFD to NFC and soft hyphens are removed, like
+	// dom.Parse does. dom.Parse does it to the stream before it is parsed, where
+	// it also rewrites markup ("</scr" + soft hyphen + "ipt>" inside a script
+	// becomes its end tag) and attribute values (URLs). Only text is text.
+	softHyphenSet := runes.Predicate(func(r rune) bool { return r == '\u00AD' })
+	var normalizeText func(*html.Node)
+	normalizeText = func(node *html.Node) {
+		if node.Type == html.TextNode {
+			normalizer := transform.Chain(norm.NFD, runes.Remove(softHyphenSet), norm.NFC)
+			if normalized, _, err := transform.String(normalizer, node.Data); err == nil {
+				node.Data = normalized
+			}
+		}
+
+		// What the parser keeps as the text of these elements is code or markup
+		if node.Type == html.ElementNode {
+			switch node.Data {
+			case "script", "style", "noscript", "iframe", "noembed", "noframes":
+				return
+			}
+		}
+
+		for child := node.FirstChild; child != nil; child = child.NextSibling {
+			normalizeText(child)
+		}
+	}
+
+	normalizeText(doc)
+	return doc, nil
 }
